@@ -148,8 +148,8 @@ def verify_contract(qn, timeout_ms, only_variant=None):
             for ob in p.obligations:
                 ob.name = f"{ob.name}@v{vi}p{pi}" if not ob.name.startswith(qn) else f"{ob.name}@v{vi}p{pi}"
                 ob.path_index = pi
-                obs.append((ob, getattr(p, "param_terms", {})))
-        for ob, params in obs:
+                obs.append((ob, getattr(p, "param_terms", {}), getattr(p, "param_recipes", {})))
+        for ob, params, recipes in obs:
             discharge(ob, timeout_ms)
             rec = {"name": ob.name if ob.name.startswith(qn) else f"{qn}#{ob.name}", "kind": ob.kind, "status": ob.status,
                    "solver_s": round(ob.solver_s, 4), "backend": ob.backend, "reason": ob.reason, "info": ob.info, "model": None}
@@ -174,14 +174,159 @@ def verify_contract(qn, timeout_ms, only_variant=None):
                     if isinstance(sh, _Const):
                         pyvals.setdefault(k, sh.value)
                         m.setdefault(k, repr(sh.value))
-                if vals_ok and not any("." in k for k in pyvals):
+                has_obj = any(r[0] == "o" for r in recipes.values())
+                if vals_ok and not has_obj and not any("." in k for k in pyvals):
                     try:
                         rec["replay"] = replay_model(program, con, f, node, pyvals)
                     except Exception as e:
                         rec["replay"] = {"reproduced": False, "error": repr(e)}
+                else:
+                    try:
+                        values = {k: build_from_recipe(program, ob.model, r) for k, r in recipes.items()}
+                        rec["replay"] = replay_objects(program, con, f, node, values)
+                    except Exception as e:
+                        rec["replay"] = {"reproduced": False, "error": repr(e)[:300]}
                 rec["variant"] = {k: repr(v)[:100] for k, v in variant.items()}
             out["obligations"].append(rec)
     out["wall_s"] = round(time.time() - t_start, 2)
+    return out
+
+
+def _recipe(ip, v):
+    from .sym import Z, C, LList, LTuple, LDict, SObj, ZBool, ZInt, ZSeq
+    from . import vals as V
+    if isinstance(v, Z):
+        return ("z", v.t)
+    if isinstance(v, ZBool):
+        return ("b", v.b)
+    if isinstance(v, ZInt):
+        return ("i", v.i)
+    if isinstance(v, ZSeq):
+        return ("s", v.s, v.kind)
+    if isinstance(v, LList):
+        return ("l", ip.seq_of(v))
+    if isinstance(v, LTuple):
+        return ("t", [_recipe(ip, i) for i in v.items])
+    if isinstance(v, C):
+        return ("c", v.v)
+    if isinstance(v, SObj):
+        return ("o", v.cls, {k: _recipe(ip, x) for k, x in v.attrs.items()})
+    return ("?", None)
+
+
+def build_from_recipe(program, model, r):
+    """Python object for a parameter under a counter-model (valida objects rebuilt field by field)."""
+    tag = r[0]
+    if tag == "z":
+        v = model.eval(r[1], model_completion=True)
+        return _decode_any(program, v)
+    if tag == "b":
+        return z3.is_true(model.eval(r[1], model_completion=True))
+    if tag == "i":
+        return model.eval(r[1], model_completion=True).as_long()
+    if tag in ("s", "l"):
+        items = [_decode_any(program, x) for x in _seq_terms(model.eval(r[1], model_completion=True))]
+        return tuple(items) if tag == "s" and r[2] == "tuple" else list(items)
+    if tag == "t":
+        return tuple(build_from_recipe(program, model, i) for i in r[1])
+    if tag == "c":
+        return r[1]
+    if tag == "o":
+        o = object.__new__(r[1])
+        for k, x in r[2].items():
+            o.__dict__[k] = build_from_recipe(program, model, x)
+        return o
+    raise ValueError("cannot rebuild parameter")
+
+
+def _seq_terms(s):
+    k = s.decl().kind()
+    if k == z3.Z3_OP_SEQ_EMPTY:
+        return []
+    if k == z3.Z3_OP_SEQ_UNIT:
+        return [s.arg(0)]
+    if k == z3.Z3_OP_SEQ_CONCAT:
+        out = []
+        for c in s.children():
+            out += _seq_terms(c)
+        return out
+    raise ValueError(f"cannot decode sequence {s}")
+
+
+def _decode_any(program, v):
+    name = v.decl().name()
+    if name == "VFunc":
+        return program.funcs_by_id[v.arg(0).as_long()]
+    if name == "VType":
+        from . import vals as V
+        i = v.arg(0).as_long()
+        return program.classes_by_id.get(i) or V.TYPE_OBJS.get(i, object)
+    if name in ("VList", "VTuple"):
+        items = [_decode_any(program, x) for x in _seq_terms(v.arg(0))]
+        return items if name == "VList" else tuple(items)
+    if name == "VDict":
+        ks = [_decode_any(program, x) for x in _seq_terms(v.arg(0))]
+        vs = [_decode_any(program, x) for x in _seq_terms(v.arg(1))]
+        return {_hashable(k): x for k, x in zip(ks, vs)}
+    return _decode_val(v)
+
+
+def replay_objects(program, con, f, node, values):
+    """Replay with rebuilt objects as arguments (methods, object-valued parameters)."""
+    import inspect as _insp
+    import copy as _copy
+    pos = [a.arg for a in node.args.posonlyargs + node.args.args]
+    args = [values[p] for p in pos]
+
+    def clause(fn, extra=None):
+        env = dict(values)
+        env.update(extra or {})
+        return fn(**{k: env[k] for k in _insp.signature(fn).parameters})
+
+    def show(x):
+        try:
+            d = getattr(x, "__dict__", None)
+            if d is not None and getattr(type(x), "__module__", "").startswith("valida"):
+                return f"<{type(x).__name__} " + ", ".join(f"{k}={show(v)}" for k, v in d.items()) + ">"
+            if callable(x) and hasattr(x, "__name__"):
+                return x.__name__
+            return repr(x)
+        except Exception:
+            return "<?>"
+    out = {"call": f"{f.__module__}.{f.__qualname__}(" + ", ".join(f"{p}={show(values[p])}" for p in pos) + ")", "args_terms": None}
+    try:
+        from vf.terms import enc
+        out["object_args_terms"] = {p: enc(values[p]) for p in pos}
+    except Exception:
+        pass
+    try:
+        if con.requires is not None and not clause(con.requires):
+            return {"reproduced": False, "error": "counter-model does not satisfy the executable precondition", **out}
+    except Exception as e:
+        return {"reproduced": False, "error": f"precondition not evaluable natively: {e!r}", **out}
+    try:
+        result = f(*args)
+    except Exception as e:
+        kind = type(e).__name__
+        out["observed"] = f"raises {kind}: {e}"
+        c = con.raises.get(kind)
+        ok = c is not None and (bool(c) if not callable(c) else bool(clause(c)))
+        out["reproduced"] = not ok
+        out["required"] = f"may raise only {sorted(con.raises)}"
+        return out
+    out["observed"] = f"returns {show(result)}"
+    bad = []
+    if con.ensures is not None:
+        try:
+            if not clause(con.ensures, {"result": result}):
+                bad.append("ensures clause is false for this result")
+        except Exception as e:
+            bad.append(f"ensures not evaluable: {e!r}")
+            out["reproduced"] = False
+            out["required"] = "; ".join(bad)
+            return out
+    out["reproduced"] = bool(bad)
+    out["required"] = "; ".join(bad) if bad else "contract holds natively on this input"
     return out
 
 
@@ -294,6 +439,7 @@ def _run_one(ip, path, con, f, node, variant, vi):
             env[ko.arg] = v
             kwargs[ko.arg] = v
     path.param_terms = params
+    path.param_recipes = {k: _recipe(ip, v) for k, v in env.items()}
     # modifies clause: which pre-existing objects may be written
     for m in con.modifies:
         pname, attr = m.split(".", 1)
@@ -477,6 +623,16 @@ def replay_obligation(rec):
     program, contracts = load_all()
     print(f"replay: obligation {rec.get('name')} of {rec.get('function')}\n  counter-model: {rec.get('model')}")
     rp = rec.get("replay") or {}
+    if rp.get("object_args_terms"):
+        from vf.terms import dec
+        qn = rec["function"]
+        con, f = contracts[qn], program.resolve(qn)
+        node = program.node_of(f)
+        values = {k: dec(v) for k, v in rp["object_args_terms"].items()}
+        out = replay_objects(program, con, f, node, values)
+        print(f"  call: {out['call']}\n  observed: {out.get('observed')}\n  required: {out.get('required')}\n  "
+              f"{'REPRODUCED' if out.get('reproduced') else 'holds on this tree'}")
+        return 1 if out.get("reproduced") else 0
     if not rp.get("args_terms"):
         print("  no concrete input was recorded for this obligation (no-failing-input-found)")
         return 0
